@@ -1,0 +1,101 @@
+#ifndef NMTOOLS_VERIF_HPP
+#define NMTOOLS_VERIF_HPP
+
+// Runtime-monitoring hooks (off by default).
+// Only active when NMTOOLS_VERIF is defined; otherwise every macro below expands to nothing.
+// The hooks only *record* events in a process-global table of counters,
+// they never change control flow or values of the library.
+
+#ifdef NMTOOLS_VERIF
+
+namespace nmtools::verif
+{
+    enum site_t : int
+    {
+        NDARRAY_INDEX   = 0,  // per-axis (index, extent) in base_ndarray_t::offset
+        NDARRAY_OFFSET  = 1,  // (flat offset, buffer length) in base_ndarray_t::operator()
+        VIEW_INDEX      = 2,  // per-axis (src index, src extent) in indexing_t::operator()
+        SVEC_AT         = 3,  // (i, size_) in utl::static_vector::at / operator[]
+        SVEC_CAPACITY   = 4,  // (requested, Capacity) in utl::static_vector ctor/resize/push_back
+        VEC_AT          = 5,  // (i, size_) in utl::vector::at / operator[]
+        CLAMP           = 6,  // clipped_integer_t stored a value different from the given one
+        EVAL_SKIP       = 7,  // evaluator returned without writing (shape mismatch)
+        KERNEL_WRITE    = 8,  // (idx, size) for a device thread that writes in assign_result
+        SVEC_AT_CAP     = 9,  // (i, Capacity) in utl::static_vector::at / operator[]
+        VIEW_INDEX_MUT  = 10, // same as VIEW_INDEX for mutable_indexing_t
+        NUM_SITES       = 16
+    };
+
+    struct state_t
+    {
+        unsigned long long events[NUM_SITES];
+        unsigned long long violations[NUM_SITES];
+        // first violating (value, bound) per site, for the witness
+        long long first[NUM_SITES][2];
+    };
+
+    inline state_t state = {};
+
+    inline void reset()
+    {
+        for (int i=0; i<NUM_SITES; i++) {
+            __atomic_store_n(&state.events[i],0ull,__ATOMIC_RELAXED);
+            __atomic_store_n(&state.violations[i],0ull,__ATOMIC_RELAXED);
+            __atomic_store_n(&state.first[i][0],0ll,__ATOMIC_RELAXED);
+            __atomic_store_n(&state.first[i][1],0ll,__ATOMIC_RELAXED);
+        }
+    }
+
+    inline void violation(int site, long long value, long long bound)
+    {
+        auto n = __atomic_fetch_add(&state.violations[site],1ull,__ATOMIC_RELAXED);
+        if (n == 0) {
+            __atomic_store_n(&state.first[site][0],value,__ATOMIC_RELAXED);
+            __atomic_store_n(&state.first[site][1],bound,__ATOMIC_RELAXED);
+        }
+    }
+
+    // event: 0 <= index < extent expected
+    inline void bounds(int site, long long index, long long extent)
+    {
+        __atomic_fetch_add(&state.events[site],1ull,__ATOMIC_RELAXED);
+        if ((index < 0) || (index >= extent)) {
+            violation(site,index,extent);
+        }
+    }
+
+    // event: requested <= capacity expected
+    inline void capacity(int site, long long requested, long long capacity)
+    {
+        __atomic_fetch_add(&state.events[site],1ull,__ATOMIC_RELAXED);
+        if ((requested < 0) || (requested > capacity)) {
+            violation(site,requested,capacity);
+        }
+    }
+
+    // event that is a violation whenever it happens
+    inline void flag(int site, long long a, long long b)
+    {
+        __atomic_fetch_add(&state.events[site],1ull,__ATOMIC_RELAXED);
+        violation(site,a,b);
+    }
+
+    // event that is only counted
+    inline void count(int site)
+    {
+        __atomic_fetch_add(&state.events[site],1ull,__ATOMIC_RELAXED);
+    }
+} // namespace nmtools::verif
+
+// The library evaluates many of the hooked functions at compile time;
+// the recording functions are not constexpr so they are skipped there.
+#define NMTOOLS_VERIF_EVENT(...) \
+    do { if (!__builtin_is_constant_evaluated()) { __VA_ARGS__; } } while (0)
+
+#else // NMTOOLS_VERIF
+
+#define NMTOOLS_VERIF_EVENT(...)
+
+#endif // NMTOOLS_VERIF
+
+#endif // NMTOOLS_VERIF_HPP
